@@ -55,7 +55,7 @@ def run(ctx):
             ctx.cov["design_step_detects_rate_limited_fetch"] = hit
             if not hit:
                 raise vlib.Infra("sensitivity: the rate-limited fetch variant no longer violates Served:\n" + r["out"][-1500:])
-    scenarios = ctx.pick(150, 2000)
+    scenarios = ctx.pick(120, 2000)
     rc, out = vlib.go_driver(ctx, PKG, "^TestVerifAcceptRecord$", files=FILES, env={"VERIF_SCENARIOS": scenarios}, timeout=1500)
     if rc != 0:
         raise vlib.Infra("accept recorder failed:\n" + out[-3000:])
@@ -86,20 +86,8 @@ def run(ctx):
                                     for l in lines[1:])))
     ctx.add("evaluations", len(files))
     ctx.add("distinct_nontrivial", len(distinct))
-    if hung_files and (ctx.only is None or ctx.only is vlib.ALL):
-        # "no hang": the watchdog alone decides nothing; the same seeded scenario must hang again when replayed alone
-        hung = hung_files[0]
-        num = int(os.path.basename(hung)[2:7])
-        keep = open(hung).read()
-        rc2, out2 = vlib.go_driver(ctx, PKG, "^TestVerifAcceptRecord$", files=FILES,
-                                   env={"VERIF_SCENARIOS": scenarios, "VERIF_ONLY": num, "VERIF_WATCHDOG_S": 45}, timeout=600)
-        again = any(l.get("res") == "hang" for l in vlib.read_ndjson(hung)) if rc2 == 0 else False
-        if not again:
-            open(hung, "w").write(keep)
-            raise vlib.Infra("scenario %d did not return within the watchdog once but returned when replayed alone: machine too slow, no verdict" % num)
-        ctx.cov["hang_reproduced_by_replay"] = num
     for k in ("requests_valid", "requests_wrong", "requests_error", "requests_badsig", "blocks_mixed", "blocks_all_remote"):
-        if ctx.only is None and not ctx.cov.get(k):
+        if ctx.only is None and not hung_files and not ctx.cov.get(k):     # a recorder that stopped at a hang saw little
             raise vlib.Infra("vacuous: no recorded scenario exercised %s" % k)
     ctx.sample({"kind": "recorded-trace", "first_lines": vlib.read_ndjson(files[0])[:8]})
     # the trace spec marks (PrintT) every valid chunk that is fetched while its producer's pending weight on the acceptor
@@ -119,6 +107,19 @@ def run(ctx):
                                         signature_fn=sig)
     finally:
         vlib.tlc_trace = orig
+    if hung_files and any(f.get("signature") == "accept:no-return-after-valid-chunk-served" for f in fails) \
+            and (ctx.only is None or ctx.only is vlib.ALL):
+        # "no hang": the watchdog alone decides nothing; the same seeded scenario must hang again when replayed alone
+        hung = hung_files[0]
+        num = int(os.path.basename(hung)[2:7])
+        keep = open(hung).read()
+        rc2, out2 = vlib.go_driver(ctx, PKG, "^TestVerifAcceptRecord$", files=FILES,
+                                   env={"VERIF_SCENARIOS": scenarios, "VERIF_ONLY": num, "VERIF_WATCHDOG_S": 45}, timeout=600)
+        again = any(l.get("res") == "hang" for l in vlib.read_ndjson(hung)) if rc2 == 0 else False
+        if not again:
+            open(hung, "w").write(keep)
+            raise vlib.Infra("scenario %d did not return within the watchdog once but returned when replayed alone: machine too slow, no verdict" % num)
+        ctx.cov["hang_reproduced_by_replay"] = num
     tight = sum(1 for f in files if vlib.read_ndjson(f)[0].get("limit", 10**6) < 10**6)
     ctx.cov["scenarios_with_small_rate_limit"] = tight
     if ctx.only is None and not fails and not ctx.cov["fetches_with_producer_at_rate_limit"]:
